@@ -71,6 +71,8 @@ def fadd (a b : Fl) : Fl :=
   else if s < 0 then ⟨true, rndRat (-s)⟩ else ⟨false, rndRat s⟩
 
 def fneg (a : Fl) : Fl := ⟨!a.neg, a.mag⟩
+/-- Python `abs(x)` on a float: clears the sign bit -/
+def fabs (a : Fl) : Fl := ⟨false, a.mag⟩
 def fsub (a b : Fl) : Fl := fadd a (fneg b)
 
 /-! ## IBM single precision -/
@@ -258,7 +260,8 @@ def addBlock (p : Pass) (block : List Nat) : AddResult :=
 
 /-! ## complete(): frame array with a computed X axis -/
 
-/-- the X axis loop of `complete`: `n` values starting at `x`, each step `x += spacing` or `x -= spacing` -/
+/-- the X axis loop of `complete`: `n` values starting at `x`, each step `x += spacing` or `x -= spacing`
+(`sp` is `abs(header spacing)`, computed once before the loop) -/
 def xAxisGo (inc : Bool) (sp : Fl) : Nat → Fl → List Fl
   | 0, _ => []
   | n + 1, x => x :: xAxisGo inc sp n (if inc then fadd x sp else fsub x sp)
@@ -292,7 +295,8 @@ def complete (p : Pass) : Except Err LogPassOut :=
   if p.chans.length = 0 then
     .ok ⟨p.ident, p.desc, p.names, p.range, p.tail, p.frameCount, none⟩
   else
-    let x := xAxisGo (isIncreasing p.range) (p.range.getD 2 ⟨false, 0⟩) p.frameCount (p.range.getD 0 ⟨false, 0⟩)
+    let spacing := fabs (p.range.getD 2 ⟨false, 0⟩)
+    let x := xAxisGo (isIncreasing p.range) spacing p.frameCount (p.range.getD 0 ⟨false, 0⟩)
     if hasDup (xIdent :: p.names) then .error .duplicate
     else .ok ⟨p.ident, p.desc, p.names, p.range, p.tail, p.frameCount, some (x, p.chans)⟩
 
